@@ -117,9 +117,9 @@ def run_family(ctx, module, build, cats, cfgfn, modes_quick, modes_thorough, dev
 def run(ctx):
     return run_family(
         ctx, MODULE, gen_imm.build_imm, CATS, cfg,
-        modes_quick=[("single", 12000), ("seq2", None), ("spell", 2000)],
+        modes_quick=[("single", 6000), ("seq2", 6000), ("spell", 2000)],
         modes_thorough=[("single", None), ("seq2", None), ("seq3", None), ("spell", None)],
-        devs=[("LeakWalkState", "seq2", ("Exact", "NoCrash")), ("CtorAnyPkg", "single", ("Exact",)), ("CtorByBareName", "single", ("Exact",)), ("NoUnalias", "spell", ("Exact",)), ("CtorAnyType", "single", ("Exact",)), ("GroupDocLeaks", "single", ("Exact",)), ("RecvBySyntax", "spell", ("Exact",))],
+        devs=[("LeakWalkState", "seq2", ("Exact", "NoCrash")), ("CtorAnyPkg", "single0", ("Exact",)), ("CtorByBareName", "single0", ("Exact",)), ("NoUnalias", "spell", ("Exact",)), ("CtorAnyType", "single0", ("Exact",)), ("GroupDocLeaks", "single0", ("Exact",)), ("RecvBySyntax", "spell", ("Exact",))],
         assumptions=["fragment: non-generic defined types, direct imports, one candidate statement per declaration",
                      "methods named like a constructor are not generated (unspecified)",
                      "diagnostics are compared as (file, line, code) sets of the IMM category"],
